@@ -1,5 +1,5 @@
 #!/usr/bin/env python3
-"""tools/keepmut.py <mutdir> <id> <caught_by>  - store a confirmed seeded change under /verif/seeded/<id>/"""
+"""tools/keepmut.py <mutdir> <id> <caught_by> [round]  - store a confirmed seeded change under /verif/seeded/<id>/"""
 import json, os, shutil, sys
 src, mid, caught = sys.argv[1], sys.argv[2], sys.argv[3]
 dst = f"/verif/seeded/{mid}"
@@ -10,5 +10,7 @@ meta = json.load(open(os.path.join(src, "meta.json")))
 meta["confirmed_by_me"] = ("applied with git apply (to /repo, or to a scratch worktree the check is pointed at with SPARKX_REPO); demo.py exits 0 on the unchanged tree and 1 with the change; "
                            "then ./check <prop> run against the changed tree and the change reverted (tools/trymut.sh / tools/trymut_wt.sh)")
 meta["check_result"] = caught
+if len(sys.argv) > 4:
+    meta["round"] = int(sys.argv[4])
 json.dump(meta, open(os.path.join(dst, "meta.json"), "w"), indent=1)
 print("kept", dst)
